@@ -77,7 +77,9 @@ func (g *Gateway) subscriptionHandler(w http.ResponseWriter, r *http.Request) {
 		}()
 		common.VerifPoint(hvid, "sub.handler.exit")
 		// close all running handlers and the connection, whatever happens to the close frame
+		defer common.VerifPoint(hvid, "sub.handler.done")
 		defer subDict.CleanAll()
+		defer common.VerifPoint(hvid, "sub.handler.cleanall")
 		defer conn.Close()
 
 		// gracefully close connection
